@@ -348,6 +348,10 @@ def judge_api(tree, B, objs, judged, supports, leaf_items, status, subs, exc, re
         elif n is tree and status == "ok":  # non-lazy root (e.g. a dict): the value is the object
             v = G.to_plain(o)
             sampled.append((n, o, v))
+    if status == "ok" and rootobj_of(judged) not in subs:
+        v = G.to_plain(rootobj_of(judged))
+        if "UNSAMPLED" in repr(v):
+            return (value_signature(tree, v), f"{G.describe(tree)}: the value is never sampled: {v!r}", {"route": "api"})
     desc_in = lambda: "in " + G.describe(tree) + "; sampled " + ", ".join(f"L{i}={vals[('L', i)]!r}" for i, _ in leaf_items)
 
     # nodes in post order: every sampled node must equal the Python operation on its operands
@@ -473,7 +477,7 @@ def judge_api(tree, B, objs, judged, supports, leaf_items, status, subs, exc, re
         )
 
     # ---- supports ----
-    items = sampled + [(B.leafnode[i], o, vals[("L", i)]) for i, o in leaf_items]
+    items = [(B.leafnode[i], o, vals[("L", i)]) for i, o in leaf_items] + sampled
     failing = set()
     for n, o, v in items:
         s = supports.get(id(n))
@@ -499,6 +503,10 @@ def judge_api(tree, B, objs, judged, supports, leaf_items, status, subs, exc, re
             res["support_values_on_bound"] += 1
         res["support_values_checked"] += 1
     return None
+
+
+def rootobj_of(judged):
+    return judged[-1][1]
 
 
 def identity_form(n):
@@ -1196,6 +1204,12 @@ def run(ctx):
         delayed_arguments={"programs": total["delayed_programs"], "outcomes": total["delayed_execs"], "values_checked": total["delayed_values_checked"]},
         refused=dict(total["refused"]),
         excluded_nonreal_parameter=total["excluded_nonreal_parameter"],
+        unjudged={
+            "numpy_scalar_operand_with_inf_nan_or_complex_result": total["unjudged_numpy_degenerate"],
+            "python_raises_in_a_subexpression_scenic_never_sampled": total["unjudged_unsampled_subexpression"],
+            "compiled_route_skipped_api_route_already_failing": total["compiled_skipped_api_route_already_failing"],
+        },
+        both_raise_different_exception_type=total["both_raise_different_exception_type"],
         operators=ops,
         unary=unary,
         containers=containers,
